@@ -247,3 +247,13 @@ func init() {
 		}
 	})
 }
+
+func init() {
+	register("DBGW", "debug: IR writers", func(c *Ctx, r *Report) {
+		for k, m := range c.W.irWriters() {
+			for fn, pos := range m {
+				fmt.Println("IRW", k, fn, pos)
+			}
+		}
+	})
+}
